@@ -18,6 +18,23 @@ var MenuMore = []string{
 	"c1:dadd(s1)+vwithdraw(s1)", "s1:!dsign(c1)", "c1:vcreate(z1)", "c1:vwithdrawmost(s1)",
 }
 
+// MenuBuilderPaths: blocks whose transactions take the builder through the branches of worker.commitTransactions that
+// the other menus never reach, because there every transaction the pool lets through is also applied (a staking or
+// contract failure is an included transaction with status 0, not an ApplyTransaction error):
+//   - xferalmostall+xfer: the second transfer of P is pending in the pool, passes nonce check and gas purchase and
+//     fails with vm.ErrInsufficientBalance after the nonce increment: ApplyTransaction returns an error that has left
+//     changes behind (the builder must roll back and go on with the next transaction);
+//   - ...+store: a third transaction of the same sender behind the failed one (nonce too high: Pop);
+//   - ...+dadd2(s1): a transaction of ANOTHER sender in the same block (price heap over two accounts; the order of
+//     the two accounts is map order inside types.NewTransactionsByPriceAndNonce);
+//   - lowgas+badstk / badstk: refused by the pool / applied with status 0.
+//
+// Used by C06 (the real miner worker is compared with the mirror builder on every block).
+var MenuBuilderPaths = []string{
+	"c1:", "c1:xfer", "c1:xferalmostall+xfer", "c1:xferalmostall+xfer+store", "c1:xferalmostall+xfer+dadd2(s1)",
+	"c1:xfer+dadd2(s1)+vdeposit(s1)", "c1:lowgas+badstk", "c1:badstk",
+}
+
 // Prefixes are scripted warm-up histories: exploration starts from the states
 // they reach as well as from genesis (most staking behaviour needs an accepted
 // delegation, a pending withdrawal or an expelled validator to exist first).
@@ -31,7 +48,7 @@ var Prefixes = map[string][]string{
 	"newval":      {"c1:vcreate(n1)", "c1:", "c1:von(n1)"},
 	// s1 keeps 3.2 units of its own (MinSelfStakes 3, MinStakes 5) and is online only thanks to D1's delegation:
 	// withdrawing that delegation forces it offline
-	"thin":      {"c1:vupdate(s1)", "c1:dadd(s1)", "c1:vwithdrawthin(s1)", "c1:", "c1:"},
+	"thin":      {"c1:vupdate(s1)", "c1:dadd(s1)", "c1:", "c1:vwithdrawthin(s1)", "c1:"},
 	"tinyhouse": {"c1:vcreate(z1)", "c1:", "c1:", "c1:"}, // z1 exists with Token 0.5 unit, Stake 0 (not part of PrefixOrder; used by C05)
 }
 
